@@ -97,6 +97,36 @@ fn c16_q_scalar_accessors_10() {
     let _ = e.u16();
     let _ = e.i32();
     let _ = e.u32();
+    let r = e.u64();
+    let _ = e.f32();
+    let _ = e.f64();
+    let _ = e.bool();
+    let _ = e.null();
+    let _ = e.is_container();
+    let _ = e.confirm_anon();
+    let _ = e.ctx();
+    let _ = e.try_ctx();
+    if let Ok(s) = e.str() {
+        vcover!(s.len() == 3);
+        vassert!(within(&b[..len], s), "ROLE:string-value-within-input");
+    }
+    if let Ok(s) = e.octets() {
+        vassert!(within(&b[..len], s), "ROLE:string-value-within-input");
+    }
+    vcover!(r.is_ok());
+    vcover!(len == 0);
+}
+
+/// Differential oracle: the widest integer accessors and the element length agree with a
+/// reference decoder on EVERY byte string of length <= 10.
+#[cfg_attr(kani, kani::proof)]
+#[cfg_attr(kani, kani::unwind(12))]
+#[cfg_attr(not(kani), test)]
+fn c16_q_integer_decode_equals_reference_10() {
+    let b: [u8; 10] = any_bytes::<10>();
+    let len = any_usize();
+    assume(len <= 10);
+    let e = TLVElement::new(&b[..len]);
     let ri = e.i64();
     let r = e.u64();
     // differential oracle: the widest accessors agree with the reference decoder on EVERY input
@@ -120,24 +150,70 @@ fn c16_q_scalar_accessors_10() {
         let ts = TAG_SIZE[(b[0] >> 5) as usize];
         vassert!(TLVSequence(&b[..len]).len().ok() == Some(1 + ts + w), "ROLE:integer-element-length-equals-reference");
     }
-    let r = e.u64();
-    let _ = e.f32();
-    let _ = e.f64();
-    let _ = e.bool();
-    let _ = e.null();
-    let _ = e.is_container();
-    let _ = e.confirm_anon();
-    let _ = e.ctx();
-    let _ = e.try_ctx();
-    if let Ok(s) = e.str() {
-        vcover!(s.len() == 3);
-        vassert!(within(&b[..len], s), "ROLE:string-value-within-input");
+    vcover!(len == 10);
+}
+
+/// Reference decoder for strings (types 0x0c..0x0f UTF-8, 0x10..0x13 octets; length field of
+/// 1/2/4/8 bytes, little endian): Some((offset, length)) of the value iff `b` starts with a
+/// complete string element.
+fn ref_str(b: &[u8]) -> Option<(usize, usize)> {
+    if b.is_empty() {
+        return None;
     }
-    if let Ok(s) = e.octets() {
-        vassert!(within(&b[..len], s), "ROLE:string-value-within-input");
+    let vt = b[0] & 0x1f;
+    if !(0x0c..=0x13).contains(&vt) {
+        return None;
     }
-    vcover!(r.is_ok());
-    vcover!(len == 0);
+    let ts = TAG_SIZE[(b[0] >> 5) as usize];
+    let w = 1usize << (vt & 3);
+    if b.len() < 1 + ts + w {
+        return None;
+    }
+    let mut l: u64 = 0;
+    let mut i = w;
+    while i > 0 {
+        l = (l << 8) | b[1 + ts + i - 1] as u64;
+        i -= 1;
+    }
+    let off = 1 + ts + w;
+    if l > (b.len() - off) as u64 {
+        return None;
+    }
+    Some((off, l as usize))
+}
+
+/// Differential oracle for strings: on EVERY byte string <= 12, `octets()` returns exactly the
+/// slice the reference decoder designates (all four length-field widths, all tag forms), and
+/// refuses everything else (truncated, length beyond the input, not a string).
+#[cfg_attr(kani, kani::proof)]
+#[cfg_attr(kani, kani::unwind(14))]
+#[cfg_attr(not(kani), test)]
+fn c16_q_string_decode_equals_reference_12() {
+    let b: [u8; 12] = any_bytes::<12>();
+    let len = any_usize();
+    assume(len <= 12);
+    let e = TLVElement::new(&b[..len]);
+    // `octets()` is the accessor for both string families; `str()` is the octet-string-only one
+    let r = e.octets();
+    let is_octets = (0x10..=0x13).contains(&(b[0] & 0x1f));
+    match ref_str(&b[..len]) {
+        Some((off, l)) => {
+            vcover!(l == 2 && b[0] & 3 == 2);
+            vassert!(e.str().is_ok() == is_octets, "ROLE:str-accessor-accepts-exactly-octet-strings");
+            match r {
+                Ok(s) => {
+                    vassert!(s.len() == l, "ROLE:string-length-equals-reference");
+                    let o = unsafe { s.as_ptr().offset_from(b.as_ptr()) };
+                    vassert!(l == 0 || o == off as isize, "ROLE:string-value-position-equals-reference");
+                }
+                Err(_) => vassert!(false, "ROLE:well-formed-string-accepted"),
+            }
+        }
+        None => {
+            vcover!(len > 5);
+            vassert!(r.is_err(), "ROLE:malformed-or-truncated-string-rejected");
+        }
+    }
 }
 
 /// `raw_value` / `container_len` on every byte string <= 6 (quick): whatever length is reported
@@ -171,12 +247,6 @@ fn c16_t_container_len_7() {
     walk_len::<7>();
 }
 
-#[cfg_attr(kani, kani::proof)]
-#[cfg_attr(kani, kani::unwind(12))]
-#[cfg_attr(not(kani), test)]
-fn c16_t_container_len_10() {
-    walk_len::<10>();
-}
 
 /// Element iterator over a container: terminates within len+1 steps, every element handed out
 /// is a sub-slice of the input.
@@ -207,7 +277,7 @@ fn walk_iter<const N: usize>() {
 #[cfg_attr(kani, kani::proof)]
 #[cfg_attr(kani, kani::unwind(6))]
 #[cfg_attr(not(kani), test)]
-fn c16_q_iter_4() {
+fn c16_t_iter_4() {
     walk_iter::<4>();
 }
 
@@ -218,12 +288,6 @@ fn c16_t_iter_6() {
     walk_iter::<6>();
 }
 
-#[cfg_attr(kani, kani::proof)]
-#[cfg_attr(kani, kani::unwind(11))]
-#[cfg_attr(not(kani), test)]
-fn c16_t_iter_9() {
-    walk_iter::<9>();
-}
 
 /// The flattening (tag, value) iterator `tlv_iter` over an arbitrary sequence.
 fn walk_tlv_iter<const N: usize>() {
@@ -250,7 +314,7 @@ fn walk_tlv_iter<const N: usize>() {
 #[cfg_attr(kani, kani::unwind(6))]
 #[cfg_attr(kani, kani::stub(core::str::from_utf8, stub_from_utf8))]
 #[cfg_attr(not(kani), test)]
-fn c16_q_tlv_iter_4() {
+fn c16_t_tlv_iter_4() {
     walk_tlv_iter::<4>();
 }
 
@@ -270,7 +334,7 @@ fn c16_t_tlv_iter_6() {
 #[cfg_attr(kani, kani::unwind(12))]
 #[cfg_attr(kani, kani::stub(core::str::from_utf8, stub_from_utf8))]
 #[cfg_attr(not(kani), test)]
-fn c16_q_tlv_iter_nested_skeleton() {
+fn c16_t_tlv_iter_nested_skeleton() {
     use crate::tlv::{TLVWrite, ToTLV};
     use crate::utils::storage::WriteBuf;
     let (v1, v2, t) = (any_u8(), any_u8(), any_u8());
@@ -313,7 +377,7 @@ fn c16_q_tlv_iter_nested_skeleton() {
 #[cfg_attr(kani, kani::proof)]
 #[cfg_attr(kani, kani::unwind(6))]
 #[cfg_attr(not(kani), test)]
-fn c16_q_find_ctx_4() {
+fn c16_t_find_ctx_4() {
     let b: [u8; 4] = any_bytes::<4>();
     let len = any_usize();
     assume(len <= 4);
